@@ -1,19 +1,19 @@
 SPECIFICATION Spec
 CONSTANTS
   Hs = {"d1", "d2", "t1"}
-  ConfSet <- ConfsQ
-  Horizon = 8
+  ConfSet <- ConfsPause
+  Horizon = 6
   MaxEdits = 0
-  MaxToggles = 1
-  MaxDeletes = 1
+  MaxToggles = 0
+  MaxDeletes = 0
   MaxForce = 0
   MaxStops = 0
   MaxKills = 0
-  MaxPauses = 0
+  MaxPauses = 1
 INVARIANT OneInstance
 INVARIANT NoRespawnAfterOwnExit
 INVARIANT CancelNotBeforeBackoff
 INVARIANT StagesInOrder
 INVARIANT FinalizerHeld
-
+INVARIANT PausedAllFlagged
 CHECK_DEADLOCK FALSE
